@@ -142,6 +142,20 @@ EXPECT.append({"src": "ch = make(chan int64, 1); ch <- 1; m = {}\nfunc bad() { t
 EXPECT.append({"src": "#cancel=6\nch = make(chan int64, 1); ch <- 1; m = {}\nfunc spin() { for { } }\nv, m[spin()] = <-ch\nprobe(\"after\")", "field": "msg", "want": "execution interrupted", "finding": "receive-ok-target-error-ignored",
                "why": "a cancellation while the ok target of a receive statement is evaluated is not swallowed"})
 
+# every invocation has its own list of deferred calls, also when several invocations of one function are alive at once and
+# when the function has been used before
+for _src, _want, _why in (
+        ("func walk(n) { defer probe(n); if n > 0 { walk(n - 1) } }\nwalk(2)\nwalk(2)\nnil", "(i:0);(i:1);(i:2);(i:0);(i:1);(i:2)", "a recursive function with a defer per frame, used twice"),
+        ("func walk(n) { defer probe(n); if n > 0 { walk(n - 1) } }\nwalk(1)\nwalk(3)\nwalk(2)\nnil", "(i:0);(i:1);(i:0);(i:1);(i:2);(i:3);(i:0);(i:1);(i:2)", "... three times with different depths"),
+        ("func walk(n) { defer probe(n); if n > 0 { walk(n - 1) } else { throw \"bottom\" } }\ntry { walk(2) } catch e { }\ntry { walk(2) } catch e { }\nnil",
+         "(i:0);(i:1);(i:2);(i:0);(i:1);(i:2)", "... left by an error"),
+        ("depth = 0\nfunc f(tag) { defer probe(tag); defer func() { if depth < 1 { depth++; f(tag + 10) } }(); defer probe(tag + 1) }\nf(1)\ndepth = 0\nf(1)\nnil",
+         "(i:2);(i:12);(i:11);(i:1);(i:2);(i:12);(i:11);(i:1)", "a deferred call that re-enters the function"),
+        ("func two(n) { defer probe(n); defer probe(n + 100); if n > 0 { two(n - 1) }; return n }\ntwo(1)\ntwo(1)\nnil",
+         "(i:100);(i:0);(i:101);(i:1);(i:100);(i:0);(i:101);(i:1)", "two defers per frame, recursion, explicit return"),
+        ("f = func(n) { defer probe(n); if n > 0 { f(n - 1) } }\nf(1)\nf(1)\nnil", "(i:0);(i:1);(i:0);(i:1)", "an anonymous function value used the same way")):
+    EXPECT.append({"src": _src, "field": "trace", "want": _want, "why": "deferred calls run exactly once per invocation, in reverse order: " + _why})
+
 # throw aborts evaluation whatever it throws - the empty string, nil, false and 0 included
 for _v, _vn in (("\"\"", "the empty string"), ("nil", "nil"), ("false", "false"), ("0", "zero"), ("\"x\"", "a string"), ("\" \"", "a blank")):
     EXPECT.append({"src": "x = 0\ntry { throw %s; x = 1 } catch e { x = 2 }\nx" % _v, "field": "result", "want": "i:2", "why": "throw of %s aborts the try body and runs catch" % _vn})
